@@ -48,18 +48,23 @@ Fixpoint dict_get (t : dict) (n : name) : option (list name) :=
   match t with [] => None | (k, v) :: r => if String.eqb k n then Some v else dict_get r n end.
 Definition has_key (t : dict) (n : name) : bool := match dict_get t n with Some _ => true | None => false end.
 
+(* set.add / set union on duplicate-free lists *)
+Definition mem (v : name) (l : list name) : bool := existsb (String.eqb v) l.
+Fixpoint set_union (old vs : list name) : list name :=
+  match vs with [] => old | v :: r => set_union (if mem v old then old else old ++ [v]) r end.
+
 (* transitive_rules[rule.src].add(rule.dest): keys in order of first occurrence *)
 Fixpoint dict_add (t : dict) (k v : name) : dict :=
   match t with
   | [] => [(k, [v])]
-  | (k', vs) :: r => if String.eqb k' k then (k', vs ++ [v]) :: r else (k', vs) :: dict_add r k v
+  | (k', vs) :: r => if String.eqb k' k then (k', set_union vs [v]) :: r else (k', vs) :: dict_add r k v
   end.
 Definition build_transitive (rules : list rule) : dict := fold_left (fun t r => dict_add t (fst r) (snd r)) rules [].
 
 Fixpoint dict_extend (t : dict) (k : name) (vs : list name) : dict :=
   match t with
-  | [] => [(k, vs)]
-  | (k', old) :: r => if String.eqb k' k then (k', old ++ vs) :: r else (k', old) :: dict_extend r k vs
+  | [] => [(k, set_union [] vs)]
+  | (k', old) :: r => if String.eqb k' k then (k', set_union old vs) :: r else (k', old) :: dict_extend r k vs
   end.
 
 (* add_rules(rules, name, deps): for every dep, the closure already stored for dep, then dep itself *)
